@@ -25,7 +25,10 @@ type loaded struct {
 	funcs     map[string]*ssa.Function
 }
 
+var repoDir = "/repo"
+
 func load(repo string) (*loaded, error) {
+	repoDir = repo
 	cfg := &packages.Config{Mode: packages.LoadAllSyntax, Dir: repo, BuildFlags: []string{"-tags=verif"},
 		Env: append(os.Environ(), "GOFLAGS=-mod=mod", "GOPROXY=off", "GOSUMDB=off", "GOTOOLCHAIN=local")}
 	pkgs, err := packages.Load(cfg, ".")
